@@ -200,13 +200,8 @@ def known_id(case, r):
             cr = pl.cross(case["A"]["n"], case["B"]["n"])
             if sum(x * x for x in cr) > 0.0:
                 return "FD4"
-    if fn in ("plane_to_triangle", "plane_to_rectangle", "plane_to_box") and shallow_crossing(case):
-        return "FD2"
-    if fn == "point_to_circle" and 0.0 < circle_sqr_len(case) < 1.01e-6:
-        return "FD3"
-    if fn == "line_segment_to_circle" and r.get("on_line") is False and any(
-            0.0 < circle_sqr_len(case, case["A"][k]) < 1.01e-6 for k in ("s", "e")):
-        return "FD3"      # end point clamp delegates to point_to_circle with an end point inside its band
+    # FD2 (plane_to_hull shallow crossing) and FD3 (point_to_circle on-axis distance) are FIXED in /repo
+    # (e4c9460, 8d1302d): no routing any more; their replays live in corpus/C10 and must pass
     if fn in ("line_to_circle", "line_segment_to_circle"):
         m0 = r.get("m0sq") if isinstance(r, dict) else None
         if m0 is not None and 1e-20 <= m0 < 1e-12:
@@ -352,7 +347,7 @@ def coq_checker_planned():
 def build_targets(pid):
     # every .vo the generated evaluation files Require, not only the Props file
     t = [f"theories/Props/{pid}.vo", "theories/Model/DistPrimRun.vo", "theories/Model/DistPrimCombRun.vo",
-         "theories/Model/DistPrimIterRun.vo"]
+         "theories/Model/DistPrimIterRun.vo", "theories/Model/DistPrimBoxRun.vo"]
     if coq_checker_planned():
         t.append("theories/Checker/Prim.vo")
     return t
